@@ -19,7 +19,7 @@ MAP = {   # the owning check first; a second one only where it is cheap and info
     "m12": ["C14"], "m13": ["C15"], "m14": ["C15", "C06"], "m15": ["C16"], "m16": ["C11"], "m17": ["C02"],
     "m18": ["C02"], "m19": ["C07"], "m20": ["C06"], "m21": ["C01"], "m22": ["C01"], "m23": ["C17"],
     "m24": ["C17"], "m25": ["C18"], "m26": ["C01"],
-    "m27": ["C16"], "m28": ["C16"], "m29": ["C16"], "m30": ["C16"], "m31": ["C01"], "m32": ["C05"],
+    "m27": ["C16"], "m28": ["C16"], "m29": ["C16"], "m30": ["C16"], "m31": ["C01"], "m32": ["C05"], "m33": ["C05"],
 }
 PRESERVING = {"m08"}
 
